@@ -48,7 +48,7 @@ fn same_tokens(want: &[TokChunk], got: &[(TokChunk, Vec<usize>)], b: &[u8], clas
     Ok(())
 }
 
-fn c10_oracle(c: &Bytes, st: &mut Stats) -> Verdict {
+pub(crate) fn c10_oracle(c: &Bytes, st: &mut Stats) -> Verdict {
     let b = &c.0[..];
     match ref_framing(b, Some(202), 4) {
         Framing::Well { .. } => {}
@@ -109,7 +109,7 @@ fn c10_oracle(c: &Bytes, st: &mut Stats) -> Verdict {
 }
 
 /// frame `body` (a multiple of 4 bytes) as an SDES packet with source count `sc` and `pad` bytes of padding
-fn frame(body: &[u8], sc: u8, pad: u8) -> Vec<u8> {
+pub(crate) fn frame(body: &[u8], sc: u8, pad: u8) -> Vec<u8> {
     let mut b = vec![0x80 | if pad > 0 { 0x20 } else { 0 } | (sc & 31), 202, 0, 0];
     b.extend_from_slice(body);
     if pad > 0 {
@@ -315,3 +315,4 @@ pub fn c10(tier: Tier) -> Check {
         legs,
     }
 }
+
